@@ -22,8 +22,16 @@ def canon_reply(j):
     if isinstance(m, dict):
         out["message"] = {k: m[k] for k in ("max_steps", "goal_description", "configuration_hash") if k in m}
         if "last_trajectory" in m:
-            out["traj_rewards"] = m["last_trajectory"]["trajectory"]["rewards"]
-            out["traj_actions"] = m["last_trajectory"]["trajectory"]["actions"]
+            lt = m["last_trajectory"]
+            out["traj_rewards"] = lt["trajectory"]["rewards"]
+            out["traj_actions"] = lt["trajectory"]["actions"]
+            out["traj_states"] = [C.canon_view(C.view2j(GameState.from_dict(x))) for x in lt["trajectory"].get("states", [])]
+            # everything else the record carries (names, roles, end reason, any further member) must be reproducible too
+            out["traj_other"] = {k: v for k, v in lt.items() if k != "trajectory"}
+            out["traj_other_members"] = {k: v for k, v in lt["trajectory"].items() if k not in ("rewards", "actions", "states")}
+        other = {k: v for k, v in m.items() if k not in ("max_steps", "goal_description", "configuration_hash", "last_trajectory")}
+        if other:
+            out["message_other"] = other
     elif m is not None:
         out["message"] = m
     return out
@@ -64,7 +72,9 @@ def main():
     cfg = default_config(env={"scenario": spec["scenario"], "use_dynamic_addresses": spec["dynamic"], "use_global_defender": spec["defender"],
                               "required_players": spec["players"], "use_firewall": True})
     cfg["coordinator"]["agents"]["Attacker"]["max_steps"] = spec["steps"]
-    cfg["coordinator"]["agents"]["Attacker"]["start_position"]["controlled_hosts"] = ["213.47.23.195", "random"]
+    # a fixed host that is itself a start candidate, next to the wildcard
+    fixed = "192.168.2.2" if spec["scenario"] == "scenario1_small" else "192.168.2.3"
+    cfg["coordinator"]["agents"]["Attacker"]["start_position"]["controlled_hosts"] = ["213.47.23.195", fixed, "random"]
     cfg["coordinator"]["agents"]["Defender"]["start_position"]["controlled_hosts"] = ["all_local"] if not spec["dynamic"] else ["192.168.1.2"]
     cfg["coordinator"]["agents"]["Defender"]["goal"]["known_blocks"] = {"192.168.1.6": ["213.47.23.195"]}
     if spec.get("generic_start"):        # a scenario whose addresses this probe does not know: start wherever the scenario allows
